@@ -150,7 +150,7 @@ CLAIMS = {
              "Undelegate pairs planner output i with the hub's own delegation i; spend-site inventory over all 15 variants (Send only on "
              "withdraw, Delegate only on bond, no funds on any WasmMsg); resync dominates every STATE write of every pricing handler. NOT "
              "decided: booked <= delegated over histories; sum of Delegate amounts = payment (C12 arithmetic)."
-             " Also: a Convert hook moves one and the same coin value between the two pools (booked total conserved); every planner entry is turned into a Delegate / Undelegate (no early exit from the emitting loop, no iterator adaptor dropping non-zero entries); the planners' distribution loops cannot be left early, nor their iterators cut, while an amount is still unplaced (the hub discards the reported remainder) - the arithmetic of the even split itself is not decided (C12; seeded change C02-s10 is a documented miss).",
+             " Also: a Convert hook moves one and the same coin value between the two pools (booked total conserved); every planner entry is turned into a Delegate / Undelegate (no early exit from the emitting loop, no iterator adaptor dropping non-zero entries); the planners' distribution loops cannot be left early, nor their iterators cut, while an amount is still unplaced (the hub discards the reported remainder); a validator is skipped only by comparing its stake with the share its entry is computed from - the arithmetic of the even split itself is not decided (C12).",
         technique="per-variant specialised exploration + ledger-delta shapes + index-expression pairing + dominance on MIR",
         ref="6/C02"),
     "C03": dict(
